@@ -25,6 +25,7 @@ import (
 
 	"github.com/lindb/common/models"
 
+	errorpkg "github.com/lindb/lindb/pkg/error"
 	stagepkg "github.com/lindb/lindb/query/stage"
 	trackerpkg "github.com/lindb/lindb/query/tracker"
 )
@@ -115,7 +116,15 @@ func (sm *pipelineStateMachine) completeStage(stageID string, err error) {
 		s.stats.ErrMsg = errMsg
 		s.stats.Async = s.stage.IsAsync()
 
-		s.stage.Complete()
+		if completeErr := completeStageSafely(s.stage); completeErr != nil {
+			// stage's Complete panics, pipeline fails too
+			s.state = trackerpkg.ErrorState
+			s.stats.State = s.state.String()
+			s.stats.ErrMsg = completeErr.Error()
+			if sm.firstErr == nil {
+				sm.firstErr = completeErr
+			}
+		}
 	}
 	sm.mutex.Unlock()
 
@@ -127,6 +136,20 @@ func (sm *pipelineStateMachine) completeStage(stageID string, err error) {
 		sm.mutex.Unlock()
 		sm.complete(err)
 	}
+}
+
+// completeStageSafely invokes Stage.Complete and returns its panic as error. It runs under the lock of
+// state machine and maybe inside the panic handler of the worker pool: a panic must not escape, else
+// the lock is never released(all other stages block in completeStage, pending never reaches zero) or,
+// inside the pool's panic handler, the process is killed.
+func completeStageSafely(stage stagepkg.Stage) (err error) {
+	defer func() {
+		if r := recover(); r != nil {
+			err = errorpkg.Error(r)
+		}
+	}()
+	stage.Complete()
+	return nil
 }
 
 // complete executes pipeline completed, invokes completed callback.
